@@ -142,7 +142,7 @@ func (g *c03gen) body(depth int, path string) []gen.Node {
 
 func (g *c03gen) node(depth int, path string) gen.Node {
 	r := g.r
-	k := r.Intn(18)
+	k := r.Intn(19)
 	if depth <= 0 && k > 6 && k < 15 {
 		k = r.Intn(7)
 	}
@@ -240,6 +240,19 @@ func (g *c03gen) node(depth int, path string) gen.Node {
 		name := "m" + g.id()
 		g.pre = append(g.pre, &gen.NMacro{Name: name, Body: g.body(depth-1, path+"/macro"), ID: g.id()})
 		return &gen.NPrint{X: &gen.EMethod{X: &gen.EName{Name: "_self"}, Name: name}, ID: g.id()}
+	case 17:
+		// an embed: the text of its override comes out inside the layout's text; what stands in the embed body
+		// outside the override - text, comments, a print - is source like any other and contributes nothing
+		if strings.Contains(path, "/macro") || strings.Contains(path, "/block") || depth <= 0 {
+			return g.text(path)
+		}
+		g.sig = append(g.sig, path+":embed")
+		stray := []gen.Node{&gen.NComment{S: c03Comments[r.Intn(len(c03Comments))]}, &gen.NText{S: " stray ", ID: g.id()}, &gen.NComment{S: " second "}}
+		if r.Intn(2) == 0 {
+			stray = append(stray, &gen.NPrint{X: &gen.EStr{S: "stray-print"}, ID: g.id()})
+		}
+		ov := &gen.NBlock{Name: "eb", Body: g.body(depth-1, path+"/block"), ID: g.id()}
+		return &gen.NEmbed{Tpl: &gen.EStr{S: "c03lay"}, Blocks: []*gen.NBlock{ov}, Stray: stray, ID: g.id()}
 	default:
 		return g.text(path)
 	}
@@ -279,7 +292,8 @@ func (p *c03) build(i int) (*Program, *c03gen) {
 	for _, kw := range c03KeywordVars {
 		ctx[kw] = "<" + kw + ">"
 	}
-	return &Program{Templates: map[string]*gen.Template{"main": t}, Main: "main", Ctx: ctx}, g
+	lay := &gen.Template{Name: "c03lay", Body: []gen.Node{&gen.NText{S: "LAY{ ", ID: "l1"}, &gen.NBlock{Name: "eb", Body: []gen.Node{&gen.NText{S: "lay-eb", ID: "l2"}}, ID: "l3"}, &gen.NText{S: " }%", ID: "l4"}}}
+	return &Program{Templates: map[string]*gen.Template{"main": t, "c03lay": lay}, Main: "main", Ctx: ctx}, g
 }
 
 func (p *c03) Describe(i int) interface{} {
